@@ -70,7 +70,7 @@ def pieces(s, i, seq_len, direction, offset, record_length):
         return (a, b, -1, -1)
     a = (a + record_length) % record_length
     b = ((b - 1 + record_length) % record_length) + 1
-    if a > b:
+    if a >= b:   # wraps over the origin (a == b: the ORF covers the whole record)
         if direction == 1:
             return (a, record_length, 0, b)
         return (0, b, a, record_length)
@@ -141,9 +141,6 @@ class _ScanOrfsBase:
         "reports-exactly-the-orfs-of-the-three-frames": lambda seq, direction, offset, minimum_length, record_length, result:
             all_found(result, found(codons(seq, 2), seq.upper(), 2, direction, offset, minimum_length, record_length),
                       direction),
-        "ordered-by-position": lambda result:
-            forall(range(0, len(result)), lambda i: forall(range(0, len(result)), lambda j: implies(
-                i <= j, low_coordinate(result[i]) <= low_coordinate(result[j])))),
     }
 
 
@@ -154,6 +151,8 @@ def _variant(name, direction, ring):
     attrs["params"] = {"seq": Str, "direction": Const(direction), "offset": Int, "minimum_length": Int,
                        "record_length": Int if ring else Const(None)}
     attrs["variant"] = name != "ScanOrfsForwardLinear"
+    if ring:
+        attrs["tiers"] = ("thorough",)   # ~3 min each: the quick tier proves the linear variants, the ring ones are bounded there
     cls = type(name, (), attrs)
     return contract(f"{FILE}::scan_orfs", props=["C15"])(cls)
 
